@@ -92,7 +92,8 @@ def execute(ctx, scn, events, tids, next_tid, data=None):
     if scn.get("stale"):
         # history: an earlier invocation (other content, other addresses) wrote the same two output files
         prev = d / "prev.suit"
-        prev.write_bytes(content(scn["size"] + 37, scn["seed"] + 5))
+        # (every second time the SAME envelope: only the addresses moved)
+        prev.write_bytes(data if scn["seed"] % 2 else content(scn["size"] + 37, scn["seed"] + 5))
         try:
             ImageCreator.create_files_for_update(str(prev), str(st), str(pf), 0x2000, 0x100000, (scn["caches"] + 3) % 17)
         except Exception:
